@@ -34,7 +34,11 @@ struct Interp {
     open_inclusive: bool,
     /// force_open while already open restarts the open timer
     force_open_restarts: bool,
-    /// force_closed while already closed empties the window
+    /// force_closed while already closed empties the window. Not an open point: only `reset`
+    /// is documented to empty the window, and a breaker whose window can be wiped by a
+    /// repeated override (or by a health trigger calling it) does not open "exactly when the
+    /// rate over the sliding window reaches its threshold". Always false; kept as a field so
+    /// that the candidate key keeps its shape.
     force_closed_clears: bool,
 }
 
@@ -209,7 +213,7 @@ impl C04 {
             for &expiry_inclusive in if self.cfg.time_based { &b[..] } else { &b[..1] } {
                 for &open_inclusive in &b {
                     for &force_open_restarts in &b {
-                        for &force_closed_clears in &b {
+                        for &force_closed_clears in &b[..1] {
                             v.push(Interp { min_cumulative, expiry_inclusive, open_inclusive, force_open_restarts, force_closed_clears });
                         }
                     }
